@@ -921,3 +921,27 @@ Proof.
   - rewrite (zrun_other prog_of now clk tr z_init z u Hr); [reflexivity|].
     intros l Hl E. apply Hnin. apply in_map_iff. exists l. auto.
 Qed.
+
+(** ** PutMany with an expiring record: per-key effects only *)
+
+(* [n] NewID steps of a program *)
+Fixpoint burn (n nx : nat) (p : prog) : prog :=
+  match n with
+  | O => p
+  | S m => match p with NewID k => burn m (S nx) (k nx) | _ => p end
+  end.
+
+Lemma mset_args_burn : forall pre k v x suf acc ret nx,
+  Forall (fun r : key * value * option Z => snd r = None) pre ->
+  burn (length pre) nx (mset_args (pre ++ (k, v, Some x) :: suf) acc ret) = ret None.
+Proof.
+  induction pre as [|[[k1 v1] e1] t IH]; intros k v x suf acc ret nx H; cbn [app length burn mset_args]; [reflexivity|].
+  inversion H as [|? ? He Ht]; subst. cbn [snd] in He. subst e1. cbn [burn]. apply IH. exact Ht.
+Qed.
+
+(* after the NewID calls of its abandoned MSET preparation (one per record in front of the first expiring one)
+   the program of such a PutMany IS the chain of the Put programs of its records, in order ([puts_prog_cons]) *)
+Lemma putmany_is_puts : forall pre k v x suf nx,
+  Forall (fun r : key * value * option Z => snd r = None) pre ->
+  burn (length pre) nx (rk_putmany (pre ++ (k, v, Some x) :: suf)) = puts_prog (pre ++ (k, v, Some x) :: suf).
+Proof. intros. unfold rk_putmany. rewrite mset_args_burn by assumption. reflexivity. Qed.
